@@ -22,7 +22,7 @@ RULE = ("cases: 1-D (axis=None), 2-D on both axes, N-D flattened, 3-D batches wi
 BUDGET = {"quick": (12, 1000, 90), "thorough": (16, 8000, 1200)}
 METHODS = ["shadow", "prio", "rank", "first", "last", "min", "max"]
 PYTEST = True     # thorough tier also runs the repository's own tests under these monitors
-MANDATORY = ["judged:" + m for m in METHODS] + ["count:ndim:1", "count:ndim:2:axis0", "count:ndim:2:axis1", "count:ndim:3:axis0",
+MANDATORY = ["judged:" + m for m in METHODS] + ["judged:input-unchanged"] + ["count:ndim:1", "count:ndim:2:axis0", "count:ndim:2:axis1", "count:ndim:3:axis0",
                                                  "count:shadow:levels>=20", "count:shadow:out-of-64-bit-scope"]
 
 
@@ -39,16 +39,17 @@ def keys2d(M):
     return out
 
 
-def ideal_total(keys):
+def ideal_top(keys):
+    """largest weight of the smallest dominating allocation (big ints): the result fits in 64 bits iff this does"""
     cnt = {}
     for k in keys:
         if k is not None:
             cnt[k[0]] = cnt.get(k[0], 0) + 1
-    total = 0
+    total, w = 0, 0
     for lv in sorted(cnt):
         w = total + 1
         total += w * cnt[lv]
-    return total
+    return w
 
 
 def check_shadow(M, w):
@@ -120,7 +121,7 @@ def judge2d(ctx, M, got, method, wit):
     """M levels x columns (python ints), got: list of python ints"""
     if method == "shadow":
         keys = keys2d(M)
-        if ideal_total(keys) >= 2 ** 62:
+        if ideal_top(keys) > 2 ** 63 - 1:
             ctx.count("count:shadow:out-of-64-bit-scope")
             return
         if len({k[0] for k in keys if k is not None}) >= 20:
@@ -157,6 +158,10 @@ def post(pre, args, kwargs, result):
         raise monitor.OutOfScope()
     res = numpy.asarray(result)
     wit = {"method": method, "axis": axis, "input": data}
+    # the array that was compressed is still the array the caller passed (a compression that rewrites its input makes every
+    # later compression of the same array answer for other priorities)
+    now = numpy.asarray(args[0]).astype(object).tolist()
+    ctx.check(now == data, "input-unchanged", lambda: dict(wit, input_after_call=now))
     flat = numpy.array(data, dtype=object).reshape(-1).tolist()
     if not isinstance(axis, int):
         ctx.count("count:ndim:%d" % len(shape) if len(shape) == 1 else "count:flattened-nd")
@@ -224,6 +229,8 @@ def gen_case(rng, tier, ctx, i):
             return [rng.choice(vals) for _ in range(sh[0])]
         return [fill(sh[1:]) for _ in range(sh[0])]
     data = fill(shape)
+    if len(shape) == 2 and rng.random() < 0.25:
+        return {"data": data, "sequence": [(rng.choice(METHODS), rng.choice([0, 1])) for _ in range(3)], "method": None, "axis": None, "via": "method"}
     if rng.random() < 0.15 and len(shape) == 2:
         data[rng.randrange(shape[0])] = [0] * shape[1]
     return {"data": data, "method": rng.choice(METHODS), "axis": axis, "via": rng.choice(["method", "alias"])}
@@ -231,6 +238,14 @@ def gen_case(rng, tier, ctx, i):
 
 def run_case(case, ctx):
     a = pnd.integer_ndarray(numpy.array(case["data"], dtype=numpy.int64))
+    if case.get("sequence"):
+        # several compressions of ONE array object; every answer is judged against the data the array was built from
+        data0 = numpy.array(case["data"], dtype=object).tolist()
+        for method, axis in case["sequence"]:
+            ctx.call("ndint_compress", a.ndint_compress, method=method, axis=axis)
+            if numpy.asarray(a).astype(object).tolist() != data0:
+                return
+        return
     if case["via"] == "alias":
         ctx.call("ndint_compress", pnd.ndint_compress, a, method=case["method"], axis=case["axis"])
     else:
